@@ -117,28 +117,34 @@ def dispatch_table(chk, funcs):
     if rs is None:
         raise AnalysisError('riemann_solve vanished from %s' % RS)
     table = {}
-    node = [s for s in rs.body if isinstance(s, ast.If)]
-    if len(node) != 1:
-        raise AnalysisError('riemann_solve is no longer a single if-chain')
-    cur = node[0]
-    while cur is not None:
-        t = cur.test
-        ok = isinstance(t, ast.Compare) and compact(t.left) == 'method' and isinstance(t.ops[0], ast.Eq) and isinstance(t.comparators[0], ast.Constant)
-        ret = cur.body[0] if len(cur.body) == 1 and isinstance(cur.body[0], ast.Return) and isinstance(cur.body[0].value, ast.Call) else None
-        if not ok or ret is None:
-            chk.violated('dispatch-table', 'riemann_solve:arm@%d' % cur.lineno, node=cur, file=RS, func='riemann_solve',
-                         detail='an arm of the dispatcher is not `method == <id>: return <solver>(...)`')
-        else:
-            mid = t.comparators[0].value
-            callee = M.call_name(ret.value)
-            args = [compact(a) for a in ret.value.args]
-            inst = 'riemann_solve:%s->%s' % (mid, callee)
-            good = callee in funcs and args == PARAMS and not ret.value.keywords and mid not in table
-            chk.decide(good, 'dispatch-table', inst, node=ret, file=RS, func='riemann_solve',
-                       detail_bad='method %s must return %s(%s) for a solver defined in this module, each id once; got arguments (%s)' % (mid, callee, ', '.join(PARAMS), ', '.join(args)),
-                       detail_ok='returns %s(%s)' % (callee, ', '.join(PARAMS)))
-            table[mid] = callee
-        cur = cur.orelse[0] if len(cur.orelse) == 1 and isinstance(cur.orelse[0], ast.If) else None
+    # per path of the dispatcher: the path that returns <solver>(...) was taken because `method == <id>` held for exactly one id (an if / elif chain, independent ifs with
+    # early returns, a chain ending in else - all the same)
+    from verif_static import paths as PT
+    pths = PT.enumerate_paths(M.docstring_stripped(rs.body))
+    narm = 0
+    for p_ in pths:
+        r_ = p_[-1]
+        if r_.kind != 'return' or not isinstance(getattr(r_.node, 'value', None), ast.Call):
+            continue
+        ret = r_.node
+        ids = [t_.comparators[0].value for t_, tr in PT.path_facts(p_) if tr and isinstance(t_, ast.Compare) and len(t_.ops) == 1 and isinstance(t_.ops[0], ast.Eq)
+               and compact(t_.left) == 'method' and isinstance(t_.comparators[0], ast.Constant)]
+        narm += 1
+        if len(ids) != 1:
+            chk.violated('dispatch-table', 'riemann_solve:arm@%d' % ret.lineno, node=ret, file=RS, func='riemann_solve',
+                         detail='a solver is returned on a path that was not selected by `method == <id>` for one id (ids on the path: %s)' % ids)
+            continue
+        mid = ids[0]
+        callee = M.call_name(ret.value)
+        args = [compact(PT.resolve(a, r_.env)) for a in ret.value.args]
+        inst = 'riemann_solve:%s->%s' % (mid, callee)
+        good = callee in funcs and args == PARAMS and not ret.value.keywords and mid not in table
+        chk.decide(good, 'dispatch-table', inst, node=ret, file=RS, func='riemann_solve',
+                   detail_bad='method %s must return %s(%s) for a solver defined in this module, each id once; got arguments (%s)' % (mid, callee, ', '.join(PARAMS), ', '.join(args)),
+                   detail_ok='returns %s(%s)' % (callee, ', '.join(PARAMS)))
+        table[mid] = callee
+    if not narm:
+        raise AnalysisError('riemann_solve returns no solver call')
     chk.decide(sorted(table) == list(range(len(table))) and len(set(table.values())) == len(table), 'dispatch-table', 'riemann_solve:ids-contiguous-and-distinct', node=rs, file=RS,
                func='riemann_solve', detail_bad='method ids %s / solvers %s are not a bijection onto 0..n-1' % (sorted(table), sorted(table.values())), detail_ok='ids 0..%d, %d distinct solvers' % (len(table) - 1, len(table)))
     want = [a.arg for a in rs.args.args]
